@@ -1,1 +1,2 @@
 import MillerModel.Props.C06
+import MillerModel.Props.C07
